@@ -504,7 +504,8 @@ theorem reader_without_bits_stored (c : CodecImpl) (conv : List Int → List Int
 native frame of 8 / 16 / 32-bit cells whose samples `xs` fit Bits Stored decodes to `xs` **whatever** the remaining high bits of
 every cell carry (`gs`: overlay planes of older objects, garbage) -- unsigned and two's complement alike, the sign being bit
 `stored - 1`.  Together with `accepted_samples_fit_stored` this is the mask on both sides: nothing outside the stored bits is
-written, nothing outside them is read. -/
+written, nothing outside them is read.  `maskStored` / `decodeCells` are hand-written (pydicom's decoder): tie C, stream `glue` with
+`glue_high_bits = garbage` (every reader and the model's `readFrame` on the same dirty bytes, L0) and stream `values`. -/
 theorem decode_ignores_unused_high_bits (c : CodecImpl) (conv : List Int → List Int) (p : Params) (rows cols samples : Nat)
     (dt : DType) (xs : List Int) (gs : List Nat) (hts : p.ts ∈ nativeSyntaxes) (hba : p.bitsAllocated ≠ 1)
     (hdt : decodedDType p.bitsAllocated p.pixelRepresentation = .ok dt)
@@ -522,7 +523,8 @@ theorem decode_ignores_unused_high_bits (c : CodecImpl) (conv : List Int → Lis
 other (`planarOf`: `R1 R2 .. G1 G2 .. B1 B2 ..`) decode through `decode_frame(planar_configuration=1)` to the frame in the
 pixel-interleaved order (`interleave_planarOf`: pixel `k`, sample `c` is stored item `c * npix + k`) -- every shape, 8 / 16 /
 32-bit cells, signed or unsigned, any number of samples above 1.  (`encode_frame` itself never writes colour-by-plane natively:
-`native_accepted_iff_representable`.) -/
+`native_accepted_iff_representable`.)  `interleavePlanes` is hand-written (pydicom's reshape): tie C, stream `glue` with `glue_planar = 1`
+(readers and the model's `readFrame` on the same colour-by-plane bytes, L0). -/
 theorem planar_frame_decodes_colour_by_pixel (c : CodecImpl) (conv : List Int → List Int) (p : Params) (rows cols samples : Nat)
     (dt : DType) (data : List Int) (hts : p.ts ∈ nativeSyntaxes) (hba : p.bitsAllocated ≠ 1)
     (hdt : decodedDType p.bitsAllocated p.pixelRepresentation = .ok dt)
